@@ -24,6 +24,7 @@ import errno
 
 import nfc.clf
 import nfc.clf.device
+from symx.envpatch import CLOCK
 
 CLF_FILE = os.sep.join(["nfc", "clf", "__init__.py"])
 
@@ -135,7 +136,7 @@ class RecDevice(nfc.clf.device.Device):
         clf = self.clf
         locked = bool(clf is not None and lock_held_by_caller(clf.lock))
         current = bool(clf is not None and clf.device is self)
-        self.lock_owner = lock_owner(clf.lock) if clf is not None else None
+        self.lock_owner = frontend_lock_owner(clf) if clf is not None else None
         fn, line, chain = clf_site()
         self.ncalls += 1
         self.trace.add("drv", method, [summary(a) for a in args], locked,
@@ -144,6 +145,9 @@ class RecDevice(nfc.clf.device.Device):
             self.hook(self, method, locked, current, fn, line)
         if self.ncalls > self.limit:
             raise HarnessLimit("more than %d driver calls" % self.limit)
+        if method.startswith("sense_") and self.env.sense_cost:
+            # a slow reader: this discovery attempt takes that long
+            CLOCK.t += self.env.sense_cost
         f = self.fault
         if f is not None and method != "close":
             fire = False
@@ -236,6 +240,7 @@ class Env(object):
         self.trace = trace
         self.dev = None
         self.close_error = False
+        self.sense_cost = 0
 
     def close(self):
         if self.close_error:
@@ -793,10 +798,26 @@ def lock_held_by_caller(lock):
     return lock.locked() and getattr(lock, "owner", "caller") == "caller"
 
 
+def frontend_lock_owner(clf):
+    """who owns THE lock of the frontend: the object installed when the
+    frontend was built (clf.guard_lock).  If 'another thread' holds that
+    object, it is inside the driver - whatever clf.lock refers to now."""
+    guard = getattr(clf, "guard_lock", None)
+    if guard is not None and guard.locked() and guard.owner == "other":
+        return "other"
+    return lock_owner(clf.lock)
+
+
+def lock_replaced(clf):
+    """the frontend lock must be one object for the lifetime of the frontend"""
+    guard = getattr(clf, "guard_lock", None)
+    return guard is not None and clf.lock is not guard
+
+
 def new_frontend():
     """ContactlessFrontend() without a path: no device yet"""
     clf = nfc.clf.ContactlessFrontend()
-    clf.lock = GuardLock()
+    clf.lock = clf.guard_lock = GuardLock()
     return clf
 
 
@@ -810,6 +831,7 @@ def make_frontend(dev, via_open=False):
     if not via_open:
         dev.attach(clf)
         return clf
+    dev.entry = "open"
     open_frontend(clf, dev)
     return clf
 
@@ -821,7 +843,7 @@ def open_frontend(clf, dev, path="rec"):
 
     def connect(p):
         locked = lock_held_by_caller(clf.lock)
-        dev.lock_owner = lock_owner(clf.lock)
+        dev.lock_owner = frontend_lock_owner(clf)
         fn, line, chain = clf_site(1)
         dev.trace.add("drv", "connect", [p], locked, clf.device is None, fn,
                       line, chain)
